@@ -83,3 +83,8 @@ def concretise(pc, it):
         case = {'mws': [], 'endpoint': sig, 'render': None, 'resources': res, 'url': []}
         return {'script': 'c01_case.py', 'case': case}
     return None
+
+
+def refute(pc, unknown_items):
+    pc.native_search(unknown_items, 'c01_search.py',
+                     {'budget': 4000 if pc.tier == 'quick' else 40000, 'seed': pc.seed}, 'c01_case.py')
